@@ -21,6 +21,7 @@ From UV.Py Require Import PyStr.
 From UV.Vers Require Import Model VersText TotalityProofs.
 From UV.Schemes Require Import Common Generic LegacyOpenssl Gentoo Debian Semver TotalityProofs.
 From UV.Schemes Require Import Rpm Gem Arch Openssl TotalityProofs2 Pypi Maven Nuget Conan NugetConanProofs.
+From UV.Schemes Require Import Registry RegistryTotality.
 From UV.Native Require Import Advisory MavenRange Relations Nginx ParserTotality.
 Import ListNotations.
 
@@ -59,6 +60,12 @@ Theorem C16_later_constructors_fail_only_with_InvalidVersion :
   (forall s, exists v, conan_ctor s = Ok v).
 Proof. repeat split; [exact rpm_ctor_declared|exact gem_ctor_declared|exact arch_ctor_declared|exact ossl_ctor_declared|exact pypi_ctor_declared|exact maven_ctor_total|exact nuget_ctor_declared|exact conan_ctor_total]. Qed.
 
+(* the same for the whole model registry at once (all 18 class names, the golang/composer constructor included):
+   construction returns a version or fails with the invalid-version error *)
+Theorem C16_every_registered_constructor_fails_only_with_InvalidVersion :
+  forall name sch s e, find_scheme name = Some sch -> v_ctor sch s = Err e -> e = EInvalidVersion.
+Proof. exact every_registered_ctor_declared. Qed.
+
 (* the builders behind the validity checks cannot raise *)
 Theorem C16_no_internal_error_behind_the_validity_checks :
   (forall s, exists o, leg_parse s = Ok o) /\ (forall s e, coerce s = Err e -> e = EValue).
@@ -84,3 +91,4 @@ Print Assumptions C16_constructors_fail_only_with_InvalidVersion.
 Print Assumptions C16_later_constructors_fail_only_with_InvalidVersion.
 Print Assumptions C16_no_internal_error_behind_the_validity_checks.
 Print Assumptions C16_native_parser_models_fail_only_with_declared_errors.
+Print Assumptions C16_every_registered_constructor_fails_only_with_InvalidVersion.
